@@ -264,7 +264,7 @@ def check_compile(ctx, ci):
     bits = {'table': table, 'F': F, 'PHI': PHI, 'consts': consts}
     if mk:
         try:
-            m = bits_eval(bits).ev(mk[-1].value)
+            m = bp._coerce(bits_eval(bits).ev(mk[-1].value))
             if isinstance(m, bp.Ones) and m.ivs == bp.own_mask().ivs:
                 ctx.holds(rule, comp, 'f.mask = ((1 << w) - 1) << shift', 'exactly the member\'s bits', mk[-1].lineno, clause='a')
             else:
